@@ -31,7 +31,7 @@ CURVES = ['DEPT', 'DT', 'RHOB', 'NPHI', 'SFLU', 'SFLA', 'ILM', 'ILD', 'GR', 'CAL
 
 
 def make_content(rng, nhdr, nf, wrap, vers):
-    c = dict(vers=vers, wrap=wrap)
+    c = dict(vers=vers, wrap=wrap, null=-999.25)          # the default null value when the well section has no NULL line
     W = []
     for i in range(nhdr['W']):
         m = MNEMS_W[i]
@@ -39,7 +39,9 @@ def make_content(rng, nhdr, nf, wrap, vers):
             t, v = rng.choice([('100.0', 100.0), ('1670.5', 1670.5), ('-0.125', -0.125), ('5', 5)])
             u = rng.choice(['M', 'FT'])
         elif m == 'NULL':
-            t, v, u = '-999.25', -999.25, ''
+            t, v = rng.choice([('-999.25', -999.25), ('-999.25', -999.25), ('-9999', -9999), ('0', 0), ('-999.2500', -999.25), ('1e30', 1e30)])
+            u = ''
+            c['null'] = float(v)
         else:
             (t, v), u = rng.choice(VALUES), rng.choice(UNITS)
         W.append((m, u, t, v, rng.choice(DESCS)))
@@ -71,7 +73,8 @@ def make_content(rng, nhdr, nf, wrap, vers):
                 d = datetime.time(rng.randrange(24), rng.randrange(60), rng.randrange(60))
                 row.append((d.strftime('%H:%M:%S'), d))
                 continue
-            row.append(rng.choice([('1.5', 1.5), ('-2.25', -2.25), ('1e3', 1000.0), ('0', 0.0), ('-999.25', None), ('NaNx', None),
+            row.append(rng.choice([('1.5', 1.5), ('-2.25', -2.25), ('1e3', 1000.0), ('0', 0.0) if c['null'] != 0.0 else ('7', 7.0),
+                                   ('-999.25', None) if c['null'] == -999.25 else ('-999.25', -999.25), ('NaNx', None),
                                    ('12:30', None), ('--', None), ('0.001', 0.001), ('123456.789', 123456.789)]))
         frames.append(row)
     c['frames'] = frames
@@ -162,7 +165,7 @@ def compare(LASRead, content, text):
                     return 'channel %s frame %d: %r read as %r' % (ch.ident, f, content['frames'][f][ci][0], got)
                 continue
             if want is None:
-                if not (np.ma.is_masked(got) or float(got) == -999.25):
+                if not (np.ma.is_masked(got) or float(got) == content['null']):
                     return 'channel %s frame %d: unparseable %r read as %r, not the null value' % (ch.ident, f, content['frames'][f][ci][0], got)
             elif np.ma.is_masked(got) or float(got) != want:
                 return 'channel %s frame %d: %r read as %r' % (ch.ident, f, content['frames'][f][ci][0], got)
@@ -255,7 +258,7 @@ def run(ctx):
                 'with >= 1 comment/blank/space-only line')
     ctx.assumptions += ['mnemonics, units and descriptions are drawn from pools whose typed reading is unambiguous (no numeric or '
                         'yes/no mnemonics and units, descriptions free of colons, at least one space between unit and value)',
-                        'NULL is -999.25', 'curve mnemonics are distinct; DATE.D / TIME.HHMMSS channels hold only well-formed dates / times (dd-Mon-yy, HH:MM:SS)']
+                        'the null value is the NULL line of the well section (-999.25, -9999, 0 or 1e30) or -999.25 without one', 'curve mnemonics are distinct; DATE.D / TIME.HHMMSS channels hold only well-formed dates / times (dd-Mon-yy, HH:MM:SS)']
     ctx.explanation = 'TLC design check of the reader against every layout; every TLC layout rendered and parsed by the real LASRead'
 
 
